@@ -500,7 +500,7 @@ def c05(ctx):
 TR_INV = "VisitedPathsResolve ParentsBeforeChildren BudgetRespected"
 
 
-def tr_cfg(mode, depth, shard=0, nshards=1):
+def tr_cfg(mode, depth, shard=0, nshards=1, sample=0):
     return """SPECIFICATION Spec
 CONSTANTS
   Cases <- GenCases
@@ -508,19 +508,24 @@ CONSTANTS
   SelDepth = %d
   Shard = %d
   NShards = %d
+  Sample = %d
 INVARIANTS %s Emit
 CHECK_DEADLOCK FALSE
-""" % (mode, depth, shard, nshards, TR_INV)
+""" % (mode, depth, shard, nshards, sample, TR_INV)
 
 
-def walk_cases(ctx, mode, depth, nshards, label):
+NGRAPHS = 9
+
+
+def walk_cases(ctx, mode, depth, label, sample=0):
     jobs, files = [], []
+    nshards = NGRAPHS          # one shard per graph of the catalogue
     for sh in range(nshards):
         f = os.path.join(ctx.scratch, "walk-%s-%d.ndjson" % (label, sh))
         files.append(f)
-        jobs.append(dict(module="TraversalGen", cfg=tr_cfg(mode, depth, sh, nshards), capture=f, workers=2,
+        jobs.append(dict(module="TraversalGen", cfg=tr_cfg(mode, depth, sh, nshards, sample), capture=f, workers=1,
                          heap="3g", timeout=3000))
-    ctx.tlc_parallel(jobs, max_procs=8)
+    ctx.tlc_parallel(jobs, max_procs=9)
     allf = os.path.join(ctx.scratch, "walk-%s.ndjson" % label)
     with open(allf, "w") as out:
         for f in files:
@@ -532,11 +537,14 @@ def walk_cases(ctx, mode, depth, nshards, label):
 @prop("C07")
 def c07(ctx):
     quick = ctx.tier == "quick"
-    f = walk_cases(ctx, "plain", 2, 8, "plain")
+    f = walk_cases(ctx, "plain", 2, "plain")
     args = ["walk", "-in", f]
     ctx.absorb(ctx.vh_run(args, timeout=3000), args, label="walk/plain")
+    f = walk_cases(ctx, "subset", 1, "subset")
+    args = ["walk", "-in", f]
+    ctx.absorb(ctx.vh_run(args, timeout=3000), args, label="walk/subset")
     if not quick:
-        f = walk_cases(ctx, "plain3", 3, 16, "plain3")
+        f = walk_cases(ctx, "plain3", 3, "plain3", sample=ctx.seed % 23)
         args = ["walk", "-in", f]
         ctx.absorb(ctx.vh_run(args, timeout=3000), args, label="walk/plain3")
     return ctx.finish(
@@ -554,7 +562,7 @@ def c07(ctx):
 
 @prop("C14")
 def c14(ctx):
-    f = walk_cases(ctx, "plain", 2, 8, "plain")
+    f = walk_cases(ctx, "plain", 2, "plain")
     args = ["walk", "-in", f, "-paths"]
     ctx.absorb(ctx.vh_run(args, timeout=3000), args, label="walk/paths")
     pf = os.path.join(ctx.scratch, "paths.ndjson")
@@ -576,8 +584,7 @@ def c14(ctx):
 
 @prop("C15")
 def c15(ctx):
-    f = os.path.join(ctx.scratch, "walk-ctl.ndjson")
-    ctx.tlc("TraversalGen", tr_cfg("ctl", 1), capture=f, workers=8, timeout=3000)
+    f = walk_cases(ctx, "ctl", 1, "ctl")
     args = ["walk", "-in", f, "-controls"]
     ctx.absorb(ctx.vh_run(args, timeout=3000), args, label="walk/controls")
     return ctx.finish(
